@@ -106,7 +106,11 @@ def patch_contracts(run):
                         c.loops[ordn]["invariant"] = c.loops[ordn]["invariant"] + [f"seq_of({lst}) == {half}(stack_slice)[:_i]"]
     cls = run.repo.live["OPCODES_BY_NAME"]["DICT"]
     c = eng.contracts.get(f"{cls}.run")
-    if c is not None:
+    fn = c and (c.fn_override[1] if c.fn_override else run.repo.qual.get(f"{cls}.run"))
+    # only where the code has the shape the invariant speaks about (a scanning loop that alternates between `values` and `keys` on `i`);
+    # any other way of building the Dict node is verified against the DICT clause without this hint
+    stored = {t.id for n_ in _ast.walk(fn) for t in _ast.walk(n_) if isinstance(t, _ast.Name) and isinstance(t.ctx, _ast.Store)} if fn else set()
+    if c is not None and {"i", "keys", "values"} <= stored:
         for sp in c.loops.values():
             if "ghost_init" in sp and "tail" in sp.get("ghost_init", {}):
                 sp["invariant"] = sp["invariant"] + [
